@@ -336,7 +336,14 @@ impl<F: Float> Arithmetic<F> {
     ///
     pub fn sample_variance(&self) -> F {
         let mean = self.sample_mean();
-        (self.sum_sq.value() - mean * self.sum.value()) / F::from(self.count - 1).unwrap()
+        let variance =
+            (self.sum_sq.value() - mean * self.sum.value()) / F::from(self.count - 1).unwrap();
+        // rounding errors can make the difference slightly negative (e.g., constant data)
+        if variance < F::zero() {
+            F::zero()
+        } else {
+            variance
+        }
     }
 
     ///
@@ -384,9 +391,16 @@ impl<F: Float> Arithmetic<F> {
     /// Complexity: \\( O(1) \\)
     ///
     pub fn ci_mean(&self, confidence: Confidence) -> CIResult<Interval<F>> {
+        if self.count < 2 {
+            return Err(CIError::TooFewSamples(self.count));
+        }
         let n = self.count as f64;
         let mean = self.sample_mean().try_f64("stats.mean")?;
         let std_dev = self.sample_std_dev().try_f64("stats.std_dev")?;
+        if !mean.is_finite() || !std_dev.is_finite() {
+            // NaN or infinite observations, or overflow of the sums
+            return Err(CIError::InvalidInputData);
+        }
         let std_err_mean = std_dev / n.sqrt();
         let degrees_of_freedom = n - 1.;
         let (lo, hi) = stats::interval_bounds(confidence, mean, std_err_mean, degrees_of_freedom);
